@@ -2,7 +2,9 @@ package attackctl
 
 import (
 	"bytes"
+	"errors"
 	"io"
+	"net"
 	"net/http"
 	"strconv"
 	"strings"
@@ -16,6 +18,14 @@ type hookRT struct{ f func(seq uint64) }
 func (t hookRT) RoundTrip(req *http.Request) (*http.Response, error) {
 	seq, _ := strconv.ParseUint(req.Header.Get("X-Vegeta-Seq"), 10, 64)
 	t.f(seq)
+	// how an exchange ends is none of the scheduler's business: some fail inside the transport, some get an error status
+	switch seq % 5 {
+	case 1:
+		return nil, &net.OpError{Op: "read", Net: "tcp", Err: errors.New("verif: connection reset by peer")}
+	case 3:
+		return &http.Response{StatusCode: 503, Status: "503 Service Unavailable", Proto: "HTTP/1.1", ProtoMajor: 1, ProtoMinor: 1,
+			Header: http.Header{}, Body: io.NopCloser(bytes.NewReader([]byte("busy"))), Request: req}, nil
+	}
 	return &http.Response{StatusCode: 200, Status: "200 OK", Proto: "HTTP/1.1", ProtoMajor: 1, ProtoMinor: 1,
 		Header: http.Header{}, Body: io.NopCloser(bytes.NewReader(nil)), Request: req}, nil
 }
